@@ -20,6 +20,7 @@ import kiwipy
 import plumpy
 from plumpy import communications, futures, loaders, persistence, process_comms
 
+from .. import explore
 from ..vloop import VLoop
 from .c14 import SHM
 
@@ -133,6 +134,7 @@ class System:
             self.controller = process_comms.RemoteProcessThreadController(self.comm)
         # model
         self.stored: Dict[Tuple[Any, Any], str] = {}  # key -> what remains to run ('run,second' ...)
+        self.failing: set = set()  # stored keys whose process fails when run
         self.pids: List[Any] = []  # pid produced by the k-th task (or None)
         self.n = 0
         if self.persister is not None:
@@ -187,12 +189,17 @@ class System:
         return ('ok', fut.result(), ran_at_reply)
 
     def persisted_keys(self) -> Dict[Tuple[Any, Any], str]:
+        """Stored key -> state label of the stored process, read through the public API (load + unbundle)."""
         if self.persister is None:
             return {}
         out = {}
         for cp in self.persister.get_checkpoints():
             bundle = self.persister.load_checkpoint(cp.pid, cp.tag)
-            out[(cp.pid, cp.tag)] = str(bundle['_state']['!!meta']['class_name']).split(':')[-1].lower()
+            n = len(CONSTRUCTED)
+            proc = bundle.unbundle(persistence.LoadSaveContext(loop=self.loop))
+            out[(cp.pid, cp.tag)] = proc.state.value
+            proc.close()
+            del CONSTRUCTED[n:]
         return out
 
     def apply(self, op: tuple) -> List[Tuple[str, Dict[str, Any], Any]]:
@@ -262,6 +269,8 @@ class System:
                      persist=op[2])
             if op[2]:
                 self.stored[(pid, None)] = ','.join(FULL_TRACE[op[1]])
+                if op[1] == 'fail':
+                    self.failing.add((pid, None))
         elif kind == 'launch':
             self.pids[-1] = pid
             full = [(pid, s) for s in FULL_TRACE[op[1]]]
@@ -275,6 +284,8 @@ class System:
                      persist=op[2])
             if op[2]:
                 self.stored[(pid, None)] = ','.join(FULL_TRACE[op[1]])
+                if op[1] == 'fail':
+                    self.failing.add((pid, None))
             if op[3]:  # nowait
                 if status != 'ok' or value != pid:
                     fail('launch:nowait-reply', {'status': status, 'value': repr(value)[:200]})
@@ -325,11 +336,7 @@ class System:
         return bad
 
     def _is_failing(self, key: Tuple[Any, Any]) -> bool:
-        try:
-            bundle = self.persister.load_checkpoint(*key)
-            return 'Failing' in bundle['!!meta']['class_name']
-        except Exception:  # noqa: BLE001
-            return False
+        return key in self.failing
 
     def key(self) -> Any:
         return (tuple(sorted((repr(k), v) for k, v in self.stored.items())), tuple(x is not None for x in self.pids))
@@ -359,7 +366,12 @@ def bfs(args: Tuple[Tuple[str, str, str], int]) -> Dict[str, Any]:
         for op in alphabet(len(hist)):
             new = hist + (op,)
             try:
-                system, bad = build(config, new)
+                with explore.watchdog(4 * explore.WATCHDOG_S):
+                    system, bad = build(config, new)
+            except explore.Hang as hang:
+                out['violations'].append({'clause': 'hang', 'features': {'op': op[0]}, 'detail': str(hang),
+                                          'case': {'config': config, 'history': new}})
+                continue
             except Exception as exc:  # noqa: BLE001
                 import traceback
                 out['violations'].append({'clause': 'harness-raised', 'features': {'exc': type(exc).__name__, 'op': op[0]},
